@@ -13,11 +13,12 @@ epoch numbers, duplicates, reorderings); `evAt pre op n` is what node `n` is rep
 call `op` issued after history `pre`, and `run_getElem` (Lemmas/C34b) shows that this is exactly the
 entry at position `pre.length` of the executable `run` the driver prints.
 
-The property is FALSE of the current code (`C34_refuted`): (1) the gate fails for a departure that
-is handed a stale epoch (findings C34-F1, C34-F3), (2) a left notification naming the local node is
-reported (finding C34-F2).  `C34_partial` is the full statement under the decidable guard
-`guard` (Lemmas/C34c) that excludes exactly these situations; the once-only clauses and the
-NodeJoined half of the self clause hold unconditionally.
+The property is FALSE of the current code (`C34_refuted`): the gate fails for a departure that is
+handed a stale epoch (findings C34-F1, C34-F3).  `C34_partial` is the full statement under the
+decidable guard `guard` (Lemmas/C34c) that excludes exactly these situations; the once-only clauses
+and the self clause hold unconditionally (`self_never_joined`, `self_never_left`; before the
+self check was added to trackNodeLeftEvent a left notification naming the local node was reported,
+finding C34-F2, fixed).
 -/
 import GoaktVerif.Lemmas.C34d
 
@@ -46,7 +47,7 @@ def NoOppL (n : Node) : Nat → St → List Op → Prop
     isJoinOf x n = false ∧ ((step s (k + 1) x).2 n).join = none ∧ NoOppL n (k + 1) (step s (k + 1) x).1 xs
 
 /-! ### the local node never reports itself: `self_never_joined`, `self_left_only_if_notified`,
-`emitted_left_ts` and `guard_no_self_left` are in Lemmas/C34c -/
+`self_never_left` and `emitted_left_ts` are in Lemmas/C34c -/
 
 /-! ### at most one NodeLeft -/
 
@@ -156,12 +157,7 @@ theorem C34_refuted : ¬ C34_full := by
   rw [witness_gate] at this
   cases this
 
-/-- second, independent refutation: the local node reports itself as left -/
-theorem self_reported_left : (evAt [.left self 1, .start .left self 1] (.complete 1) self).left = some 1 := by
-  decide
-
-/-- The full statement under the guard: for every history that satisfies `guard` (no left
-    notification names the local node; no newly tracked departure is handed a latest epoch that
+/-- The full statement under the guard: for every history that satisfies `guard` (no newly tracked departure is handed a latest epoch that
     does not cover it; no node-left rebalance-start arrives that does not cover a pending departure). -/
 def C34_partial_stmt : Prop :=
   ∀ (pre : List Op) (op : Op), guard (pre ++ [op]) = true →
@@ -178,11 +174,7 @@ def C34_partial_stmt : Prop :=
 theorem C34_partial : C34_partial_stmt := by
   intro pre op hg
   refine ⟨self_never_joined pre op, ?_, fun n => ⟨?_, ?_, ?_⟩⟩
-  · cases h : (evAt pre op self).left with
-    | none => rfl
-    | some t =>
-      obtain ⟨c, hc⟩ := self_left_only_if_notified pre op t h
-      exact absurd hc (guard_no_self_left _ hg c)
+  · exact self_never_left pre op
   · intro post op' h _; exact left_once pre op post op' n h
   · intro post op' h hno; exact join_once pre op post op' n h hno
   · intro t ht
